@@ -156,5 +156,13 @@ def run(P, ctx):
     res.extra["explanation"] = "Delivery-path, overflow-policy and shutdown-order shapes of fibre_logging's dispatch and writer code."
     clause1(P, res)
     clause2(P, res)
-    clause3(P, res)
+    # clause3 (shutdown order) is NOT armed: on the pinned tree shutdown raises the stop flag before it closes the
+    # channels and the writer's final drain stops at Empty, but the window in which a blocking send is accepted
+    # and never written could not be demonstrated against the real code (it needs the writer to read the flag in
+    # the few instructions between the two statements of shutdown_impl). Per the false-alarm policy an alarm
+    # that cannot be shown to break the property is withdrawn; the observation is recorded as a note only.
+    probe = Result("C19")
+    clause3(P, probe)
+    for i in probe.instances:
+        res.notes.append(f"advisory (not a verdict): C19-3 shutdown-order shape {i.status}: {i.detail[:300]}")
     return res
